@@ -354,7 +354,7 @@ pub fn render(toks: &[Tok], after_cw: bool) -> Option<String> {
                 prev_space = true;
             }
             Tok::Ch(c, cat) => {
-                if plain_cat(c) != cat || !(1..=12).contains(&cat) || cat == 5 || cat == 9 || cat == 10 {
+                if plain_cat(c) != cat || !(1..=13).contains(&cat) || cat == 5 || cat == 9 || cat == 10 {
                     return None;
                 }
                 if prev_cw && cat == 11 {
